@@ -5,7 +5,7 @@ _NOTE_MODEL = ("The model (model.rs, ~450 lines: BTreeSet/BTreeMap/enum term alg
                "bottom and greatest-element predicates) is the documented abstract lattice: bottom-valued MapUnion "
                "entries invisible, WithBot(Some(bottom)) = bottom, WithTop adjoins a NEW top, union-find parent maps "
                "read as partitions, VecUnion length significant. Element/key type is u8 throughout; read-only "
-               "representations (VecSet, Vec, ArraySet, SingletonSet, OptionSet, EmptySet and the map analogues) are "
+               "representations (VecSet, Vec, ArraySet of length 0-3, SingletonSet, OptionSet, EmptySet and the map analogues) are "
                "only built well-formed (no duplicates). GHT, tombstone lattices and bimorphisms are served elsewhere.")
 
 reg("C01", [mon("rt", "mon_lattices")],
@@ -15,12 +15,12 @@ reg("C01", [mon("rt", "mon_lattices")],
 
 reg("C02", [mon("rt", "mon_lattices")],
     technique="runtime monitor: returned changed-flag of every Merge<Other> impl compared with model(before) vs model(after), result compared with the model join",
-    text="For ~135 (Self, Other) pairs incl. ~90 cross-representation ones, all pairs of a 200 (thorough 400) value list (sampled above 20 000 / 160 000 per pair): flag == (model(after) != model(before)), model(after) == model(before) join model(other), flag false => other <= before. Independent of partial_cmp.",
+    text="For ~215 (Self, Other) pairs incl. ~155 cross-representation ones (zero-length ArraySet/ArrayMap, EmptySet/EmptyMap, OptionSet/OptionMap(None) also nested as WithBot / MapUnion / VecUnion / Pair / DomPair values), all pairs of a 200 (thorough 400) value list (sampled above 20 000 / 160 000 per pair): flag == (model(after) != model(before)), model(after) == model(before) join model(other), flag false => other <= before. Independent of partial_cmp.",
     note=_NOTE_MODEL)
 
 reg("C03", [mon("rt", "mon_lattices")],
     technique="runtime monitor: partial_cmp / == / operators / naive_cmp / is_bot / is_top / Default of every (Self, Other) impl pair compared with the model order",
-    text="For ~330 (Self, Other) comparison pairs (every cross-representation PartialOrd/PartialEq impl of the table) all pairs of a 200 (400) value list (sampled above 12 000 / 160 000): partial_cmp, ==, <=, <, >=, >, != equal the model order; naive_cmp == partial_cmp == model; partial-order laws on all triples of a 30 (70) value list for 45 types; is_bot / is_top equal the model's least / greatest element for ~100 types; Default is bottom for ~70 types. A panic is a violation.",
+    text="For ~535 (Self, Other) comparison pairs (every cross-representation PartialOrd/PartialEq impl of the table, incl. zero-length ArraySet/ArrayMap and empty/None containers at top level and nested as values) all pairs of a 200 (400) value list (sampled above 12 000 / 160 000): partial_cmp, ==, <=, <, >=, >, != equal the model order; naive_cmp == partial_cmp == model; partial-order laws on all triples of a 30 (70) value list for 45 types; is_bot / is_top equal the model's least / greatest element for ~120 types (>= 20 of them with a degenerate-size bottom representation, enforced); Default is bottom for ~75 types. A panic is a violation.",
     note=_NOTE_MODEL + " is_top is judged against the abstract lattice over an unbounded element domain (sets/maps/vectors/partitions have no top).")
 
 reg("C04", [mon("rt", "mon_lattices")],
